@@ -759,4 +759,211 @@ theorem optimizeWith_ok (pats : List Pattern) (code opt : List PInstr)
     simp only [List.length_nil, List.nil_append] at h2
     rw [h2] at this
     exact ⟨this, _, hperm, h⟩
+
+/-! ### Final theorems -/
+
+/-- side condition on a pattern table ("never match a jump instruction", peephole_patterns.go):
+no pattern contains a jump opcode -/
+def noJumpInPatterns (pats : List Pattern) : Bool :=
+  pats.all (fun c => c.opcodes.all (fun o => !jumpOps.contains o))
+
+theorem allPatterns_noJump : noJumpInPatterns allPatterns = true := by decide
+
+theorem mem_collectJumpTargets {code : List PInstr} {x : PInstr} (hx : x ∈ code) (hj : isJump x = true) :
+    x.target ∈ collectJumpTargets code := by
+  unfold collectJumpTargets
+  rw [List.mem_filterMap]
+  exact ⟨x, hx, by simp [hj]⟩
+
+theorem window_no_jump {pats : List Pattern} (hnj : noJumpInPatterns pats = true) {c : Pattern}
+    (hc : c ∈ pats) {w : List PInstr} (hw : w.map (·.op) = c.opcodes) {x : PInstr} (hx : x ∈ w) :
+    isJump x = false := by
+  unfold noJumpInPatterns at hnj
+  rw [List.all_eq_true] at hnj
+  have h1 := hnj c hc
+  rw [List.all_eq_true] at h1
+  have : x.op ∈ c.opcodes := by rw [← hw]; exact List.mem_map.2 ⟨x, hx, rfl⟩
+  have h2 := h1 _ this
+  unfold isJump
+  simpa using h2
+
+/-- (b) a jump of the source is never inside a rewritten window: it is copied, and its position in
+the output is one of the positions `patchJumps` patches -/
+theorem jump_is_copied {pats : List Pattern} {jt : List Nat} (hnj : noJumpInPatterns pats = true) :
+    ∀ (segs : List Seg) (i : Nat), Legit pats jt i segs → ∀ x ∈ srcOf segs, isJump x = true →
+      ∀ pre : List PInstr, Seg.copy x ∈ segs ∧
+        ∃ j ∈ jumpsOf pre.length segs, (pre ++ outOf segs)[j]? = some x := by
+  intro segs
+  induction segs with
+  | nil => intro i _ x hx; simp [srcOf] at hx
+  | cons s rest ih =>
+    intro i hl x hx hj pre
+    cases s with
+    | copy y =>
+      simp only [srcOf, List.flatMap_cons, Seg.src, List.singleton_append, List.mem_cons] at hx
+      simp only [Legit] at hl
+      rcases hx with hx | hx
+      · subst hx
+        refine ⟨List.mem_cons_self, pre.length, by simp [jumpsOf, hj], ?_⟩
+        simp [outOf, Seg.out]
+      · obtain ⟨hm, j, hjm, hget⟩ := ih _ hl x hx hj (pre ++ [y])
+        refine ⟨List.mem_cons_of_mem _ hm, j, ?_, ?_⟩
+        · simp only [List.length_append, List.length_cons, List.length_nil, Nat.zero_add] at hjm
+          simp only [jumpsOf]
+          split
+          · exact List.mem_cons_of_mem _ hjm
+          · exact hjm
+        · simpa [outOf, Seg.out] using hget
+    | rewrite w r =>
+      simp only [srcOf, List.flatMap_cons, Seg.src, List.mem_append] at hx
+      simp only [Legit] at hl
+      obtain ⟨⟨c, hc, hw, _, _, _⟩, hl'⟩ := hl
+      rcases hx with hx | hx
+      · have := window_no_jump hnj hc hw hx
+        rw [this] at hj; simp at hj
+      · obtain ⟨hm, j, hjm, hget⟩ := ih _ hl' x hx hj (pre ++ r)
+        refine ⟨List.mem_cons_of_mem _ hm, j, ?_, ?_⟩
+        · simpa [jumpsOf] using hjm
+        · simpa [outOf, Seg.out] using hget
+
+theorem patchDirect_ok_bound (all : List (Nat × Int)) : ∀ (js : List Nat) (opt opt' : List PInstr),
+    patchDirect all opt js = .ok opt' → js.Nodup → ∀ j ∈ js, ∀ ins, opt[j]? = some ins →
+      (ins.target : Int) + shiftSum all ins.target ≤ 65535 := by
+  intro js
+  induction js with
+  | nil => intro _ _ _ _ j hj; simp at hj
+  | cons j0 js ih =>
+    intro opt opt' h hnd j hj ins hins
+    unfold patchDirect at h
+    cases hget : opt[j0]? with
+    | none => rw [hget] at h; simp at h
+    | some ins0 =>
+      rw [hget] at h
+      simp only at h
+      split at h
+      · simp at h
+      · rename_i hno
+        rw [List.nodup_cons] at hnd
+        rw [List.mem_cons] at hj
+        rcases hj with hj | hj
+        · subst hj
+          rw [hget] at hins
+          simp only [Option.some.injEq] at hins
+          subst hins
+          omega
+        · have hne : j0 ≠ j := fun heq => hnd.1 (heq ▸ hj)
+          exact ih _ _ h hnd.2 j hj ins (by rw [List.getElem?_set_ne hne]; exact hins)
+
+theorem outPatched_length (r : PInstr → PInstr) : ∀ segs : List Seg,
+    (segs.flatMap (Seg.outPatched r)).length = (outOf segs).length := by
+  intro segs
+  induction segs with
+  | nil => rfl
+  | cons s rest ih =>
+    cases s <;> simp only [outOf, List.flatMap_cons, List.length_append, Seg.outPatched, Seg.out,
+      List.length_cons, List.length_nil] at ih ⊢ <;> omega
+
+/-- **peephole_jumps** (C34, peephole part).  For every pattern table without jump opcodes, every
+instruction list `code` (arbitrary, not only compiler output) on which the pass does not panic:
+there is a segmentation `segs` of `code` into copied instructions and rewritten windows such that
+ 1. `srcOf segs = code` (order-preserving partition of the input),
+ 2. `Legit …`: every rewritten window is a match of a table pattern replaced by that pattern's
+    Replacement, and **no offset of a rewritten window, its start included, is a jump target**,
+ 3. the result is the concatenation of the units' outputs, the copied jumps retargeted by the
+    direct formula `t ↦ uint16(t + Σ{shift | offset < t})` (= what the pointer scan of
+    `patchJumps` computes, `patchJumps_eq_direct`),
+ 4. every jump of `code` is a copied unit (it survives),
+ 5. for every jump of `code` with target `t ≤ len(code)`: `t` is the start of a unit or the end
+    of the code, and the jump's new target is `image segs t`, the output offset of that unit. -/
+theorem peephole_jumps (pats : List Pattern) (hnj : noJumpInPatterns pats = true)
+    (code opt : List PInstr) (h : optimizeWith pats code = .ok opt) :
+    ∃ segs : List Seg,
+      srcOf segs = code ∧
+      Legit pats (collectJumpTargets code) 0 segs ∧
+      opt = segs.flatMap (Seg.outPatched (retarget (shiftsOf 0 segs))) ∧
+      (∀ x ∈ code, isJump x = true → Seg.copy x ∈ segs) ∧
+      (∀ x ∈ code, isJump x = true → x.target ≤ code.length →
+        image segs x.target = some (retarget (shiftsOf 0 segs) x).target) := by
+  obtain ⟨segs, hseg, hopt, js, hperm, hpd⟩ := optimizeWith_ok pats code opt h
+  obtain ⟨hsrc, hlegit⟩ := segments_spec _ _ _ _ _ _ hseg
+  refine ⟨segs, hsrc, hlegit, hopt, ?_, ?_⟩
+  · intro x hx hj
+    exact (jump_is_copied hnj segs 0 hlegit x (hsrc ▸ hx) hj []).1
+  · intro x hx hj ht
+    have hjt := mem_collectJumpTargets hx hj
+    have hsome := image_isSome_of_legit segs 0 x.target hlegit hjt (Nat.zero_le _)
+      (by rw [hsrc]; omega)
+    rw [Nat.sub_zero] at hsome
+    obtain ⟨p, hp⟩ := Option.isSome_iff_exists.1 hsome
+    have hpe := image_eq_shift segs 0 _ _ hp
+    rw [Nat.zero_add] at hpe
+    obtain ⟨_, j, hjm, hget⟩ := jump_is_copied hnj segs 0 hlegit x (hsrc ▸ hx) hj []
+    simp only [List.length_nil, List.nil_append] at hjm hget
+    have hnd : js.Nodup := hperm.symm.nodup (jumpsOf_nodup segs 0)
+    have hb := patchDirect_ok_bound _ _ _ _ hpd hnd j (hperm.mem_iff.2 hjm) x hget
+    rw [hp]
+    simp only [retarget, toUint16, Option.some.injEq]
+    omega
+
+/-- (c) where a retargeted jump lands: the output from the new target on is exactly the
+translation of the source from the old target on. -/
+theorem peephole_jumps_land (pats : List Pattern) (hnj : noJumpInPatterns pats = true)
+    (code opt : List PInstr) (h : optimizeWith pats code = .ok opt) :
+    ∃ segs : List Seg, srcOf segs = code ∧
+      opt = segs.flatMap (Seg.outPatched (retarget (shiftsOf 0 segs))) ∧
+      ∀ x ∈ code, isJump x = true → x.target ≤ code.length →
+        ∃ a b, segs = a ++ b ∧ code.drop x.target = srcOf b ∧
+          opt.drop (retarget (shiftsOf 0 segs) x).target =
+            b.flatMap (Seg.outPatched (retarget (shiftsOf 0 segs))) := by
+  obtain ⟨segs, hsrc, _, hopt, _, himg⟩ := peephole_jumps pats hnj code opt h
+  refine ⟨segs, hsrc, hopt, ?_⟩
+  intro x hx hj ht
+  obtain ⟨a, b, hab, h1, h2⟩ := image_split _ _ _ (himg x hx hj ht)
+  refine ⟨a, b, hab, ?_, ?_⟩
+  all_goals generalize retarget (shiftsOf 0 segs) = r at hopt h2 ⊢
+  · rw [← hsrc, hab]
+    simp only [srcOf, List.flatMap_append] at h1 ⊢
+    rw [← h1, List.drop_left]
+  · rw [hopt, ← h2, ← outPatched_length r a, hab, List.flatMap_append, List.drop_left]
+
+/-- the pass with the real table -/
+theorem peephole_jumps_real (code opt : List PInstr) (h : optimize code = .ok opt) :
+    ∃ segs : List Seg,
+      srcOf segs = code ∧
+      Legit allPatterns (collectJumpTargets code) 0 segs ∧
+      opt = segs.flatMap (Seg.outPatched (retarget (shiftsOf 0 segs))) ∧
+      (∀ x ∈ code, isJump x = true → Seg.copy x ∈ segs) ∧
+      (∀ x ∈ code, isJump x = true → x.target ≤ code.length →
+        image segs x.target = some (retarget (shiftsOf 0 segs) x).target) :=
+  peephole_jumps allPatterns allPatterns_noJump code opt h
+
+/-- a panic of the pass is a Replacement's panic or the uint16 overflow; the totalisation
+`Panic.index` of the loop fuel is not reachable through the loop itself -/
+theorem mainLoop_error (pats : List Pattern) (code : List PInstr) (e : Panic)
+    (h : mainLoop pats (collectJumpTargets code) code.length 0 code {} = .error e) :
+    ∃ c w, c ∈ pats ∧ c.replace w = .error e := by
+  rw [mainLoop_eq] at h
+  cases hs : segments pats (collectJumpTargets code) code.length 0 code with
+  | error e' =>
+    rw [hs] at h; simp only [Except.error.injEq] at h; subst h
+    exact segments_error _ _ _ _ _ _ (Nat.le_refl _) hs
+  | ok segs => rw [hs] at h; simp at h
+
+/-! non-vacuity: a jump over two rewritten windows, a window at a jump target left alone, a jump
+to the end of the code -/
+def exCode : List PInstr :=
+  [ { op := "JumpIfFalse", target := 3 },
+    { op := "Nil" }, { op := "TransferAndConvert", payload := "valueType=1 targetType=2" },
+    { op := "GetLocal", payload := "local=0" }, { op := "GetField", payload := "fieldName=1 accessedType=2" },
+    { op := "GetLocal", payload := "local=1" }, { op := "GetField", payload := "fieldName=3 accessedType=2" },
+    { op := "Jump", target := 0 }, { op := "Jump", target := 9 } ]
+
+def exOpt : List PInstr :=
+  [ { op := "JumpIfFalse", target := 2 },
+    { op := "Nil" },
+    { op := "GetLocal", payload := "local=0" }, { op := "GetField", payload := "fieldName=1 accessedType=2" },
+    { op := "GetFieldLocal", payload := "fieldName=3 accessedType=2 local=1" },
+    { op := "Jump", target := 0 }, { op := "Jump", target := 7 } ]
+
+example : optimize exCode = .ok exOpt := by rfl
 end Verif.Proofs.Peephole
